@@ -113,6 +113,13 @@ func runShard(self string, ck *Check, tier string, seed int64, shard, nshards in
 			kind = "per-case CPU budget exceeded (hang or blow-up)"
 		case 4:
 			kind = "heap limit exceeded"
+		case 6:
+			kind = "the check had to stop the worker"
+			for _, l := range strings.Split(string(logb), "\n") {
+				if strings.HasPrefix(l, "ABORT ") {
+					kind = strings.TrimPrefix(l, "ABORT ")
+				}
+			}
 		}
 		tail := string(logb)
 		if len(tail) > 3000 {
